@@ -70,6 +70,7 @@ class Model:
         self.used_trusted = set()
         self.unmodelled = []
         self.states = 0
+        self.watch = {}  # callee fn name -> event label: record the shape of what that callee returned on this path
 
     # ------------------------------------------------------------------ contract
     def contract(self, name, args, ts, t, interp, env):
@@ -225,6 +226,18 @@ class Model:
         if p is not None and self.F.fns[p]["crate"] in self.scope:
             facts = tuple(sorted((k, v) for k, v in env.items() if k[0] == "@")) if self.refine_tags else ()
             outs = self.summary(p, [self._abstract_ret(a) for a in args], ts[4], facts)
+            label = self.watch.get(self.F.fns[p].get("name"))
+            if label:
+                res = []
+                for rv, dl in outs:
+                    nts = compose(ts, dl)
+                    shape = rv[1] if is_variant(rv) else "?"
+                    if is_variant(rv, "Ok") and rv[2] and is_variant(rv[2][0]):
+                        shape = "Ok(%s)" % rv[2][0][1]
+                    elif is_variant(rv, "Err") and rv[2] and rv[2][0] == ("uns",):
+                        shape = "Err(unsupported)"
+                    res.append((rv, (nts[0], nts[1], nts[2], nts[3] + ((label, shape),), nts[4]), None))
+                return res
             return [(rv, compose(ts, dl), None) for rv, dl in outs]
         # closure-taking std combinators
         a0 = args[0] if args else TOP
